@@ -1,6 +1,7 @@
 package main
 
 import (
+	"bytes"
 	"context"
 	"encoding/json"
 	"fmt"
@@ -537,8 +538,15 @@ func c02Load(tc *c02Case, allowExternal bool) *c02Loaded {
 		os.Chdir(dir) // so that a location that lost its host would find the file
 		res.doc, res.err = loader.LoadFromURI(&url.URL{Scheme: "https", Host: "root.example", Path: "/r/openapi.json"})
 		os.Chdir(wd)
-	case "data":
-		res.doc, res.err = loader.LoadFromData(rootBytes)
+	case "data", "reader":
+		wd, _ := os.Getwd()
+		os.Chdir(filepath.Join(dir, "r"))
+		if tc.Entry == "data" {
+			res.doc, res.err = loader.LoadFromData(rootBytes)
+		} else {
+			res.doc, res.err = loader.LoadFromIoReader(bytes.NewReader(rootBytes))
+		}
+		os.Chdir(wd)
 	default:
 		panic("harness: c02 entry " + tc.Entry)
 	}
